@@ -13,15 +13,6 @@ ConfigsFull == { <<RZero, RI(8), 4, 2, 4, TRUE>>, <<RZero, RI(8), 4, 2, 6, TRUE>
                  <<RZero, RI(6), 3, 2, 4, TRUE>>, <<RZero, RI(4), 4, 2, 6, TRUE>> }
 ConfigsQuick == { <<RZero, RI(8), 4, 2, 4, TRUE>>, <<RZero, RI(6), 3, 2, 4, TRUE>>, <<RZero, RI(8), 4, 2, 4, FALSE>> }
 
-Pattern(k, p) ==
-    CASE p = 0 -> Seq0(k)
-      [] p = 1 -> [i \in 1..k |-> RI(5)]
-      [] p = 2 -> [i \in 1..k |-> IF i = 1 THEN RI(2) ELSE RZero]
-      [] p = 3 -> [i \in 1..k |-> IF i = (k + 1) \div 2 THEN RI(5) ELSE IF i = k THEN R(1, 2) ELSE RZero]
-      [] p = 4 -> [i \in 1..k |-> RI(i)]
-      [] p = 5 -> [i \in 1..k |-> IF 4 * i <= k + 3 THEN RI(3) ELSE RZero]
-      [] p = 6 -> [i \in 1..k |-> IF i = k THEN RI(7) ELSE RZero]
-
 Ops(st) ==
        { [op |-> "reset", rb |-> x] : x \in BOOLEAN }
     \cup { [op |-> "add", k |-> x] : x \in {1, 2} }
